@@ -145,7 +145,8 @@ def check_single(item, counters):
 def check_fused(seed, counters):
     from .. import harness as H
     rnd = random.Random(seed)
-    d = gs.gen_spec(rnd, rnd.choice(["chain2", "mvchain2", "fanin2", "chain3", "chain2"]), levels=rnd.choice([2, 2, 3]),
+    wk = rnd.choice(["chain2", "mvchain2", "fanin2", "chain3", "chain2"])
+    d = gs.gen_spec(rnd, wk, levels=2 if wk in ("chain3", "fanin2") else rnd.choice([2, 2, 3]),
                     size_class="tight", costs="tradeoff")
     variant = rnd.choice(["plain", "plain", "n_instances", "persistent"])
     if variant == "n_instances":
@@ -158,6 +159,9 @@ def check_fused(seed, counters):
         res = H.run_mapper(d, "ENERGY|LATENCY|RESOURCE_USAGE")
     except H.NoMapping:
         counters["no_valid_mapping"] = counters.get("no_valid_mapping", 0) + 1
+        return [], [], d
+    except H.MapperTimeout:
+        counters["mapper_watchdog(inconclusive)"] = counters.get("mapper_watchdog(inconclusive)", 0) + 1
         return [], [], d
     rows = H.result_rows(res)
     rnd.shuffle(rows)
